@@ -630,7 +630,17 @@ def solve_contract(A, b, name="x"):
 
     c = _core()
     n = A.shape[1]
-    if ST.mode == "sym":
+    numeric = ST.mode == "const"
+    if ST.mode == "sym" and c.ENGINE.const_mode:
+        # concolic configurations: a system whose entries are all constants is solved numerically
+        try:
+            Ad = A.todense() if isinstance(A, sparse.SpM) else np.asarray(A, dtype=object)
+            [tofloat(v) for row in Ad for v in row]
+            [tofloat(v) for v in np.asarray(b, dtype=object)]
+            numeric = True
+        except ValueError:
+            numeric = False
+    if ST.mode == "sym" and not numeric:
         z3 = _z3()
         x = fresh(name, n)
         r = A.dot(x) if isinstance(A, sparse.SpM) else np.dot(A, x)
@@ -639,7 +649,7 @@ def solve_contract(A, b, name="x"):
             ta, tb = c._arith(ri, bi)
             c.ENGINE.add(ta == tb)
         return x
-    if ST.mode == "const":
+    if numeric:
         Ad = A.todense() if isinstance(A, sparse.SpM) else np.asarray(A, dtype=object)
         Af = np.array([[tofloat(v) for v in row] for row in Ad], dtype=float)
         bf = np.array([tofloat(v) for v in np.asarray(b, dtype=object)], dtype=float)
